@@ -449,8 +449,44 @@ func (x *c10) sendCovered() {
 					if !launched && waitIdx < 0 {
 						continue
 					}
+					// the join comes after the launches: after the last goroutine this path starts itself and after every
+					// launching loop it has been through
+					early := false
+					if waitIdx >= 0 {
+						for j := range q.Events {
+							if q.Events[j].Kind == "go" && j > waitIdx {
+								early = true
+							}
+						}
+						for _, bp := range ps {
+							if bp.End != EndLoopBack || bp.BackTo == nil {
+								continue
+							}
+							launches := false
+							for j := range bp.Events {
+								if bp.Events[j].Kind == "go" {
+									launches = true
+								}
+							}
+							if !launches {
+								continue
+							}
+							// the loop it closes and every loop that encloses it (the headers it came through)
+							hs := []*ssa.BasicBlock{bp.BackTo}
+							for h := range bp.LoopAt {
+								hs = append(hs, h)
+							}
+							for _, h := range hs {
+								if at, through := q.LoopAt[h]; through && waitIdx < at {
+									early = true
+								}
+							}
+						}
+					}
 					if waitIdx < 0 {
 						fail("a path leaves the region without waiting for the goroutines")
+					} else if early {
+						fail("wg.Wait() runs before the goroutines are started: it waits for a count that nothing brings down (the call never returns), or returns before the hand-offs it is meant to join")
 					} else if waitIdx > unlockIdx {
 						fail("wg.Wait() runs after the lock is released: the goroutines outlive the region and Unsub may close a channel under a blocked send")
 					}
